@@ -39,10 +39,10 @@ CHECKS = {
  "C09": dict(level="exploration", sec="4 C09", tech="runtime monitoring: self-recording predicates, detach/destructor ledger per object id",
    text="Stateful predicates record their own answers and RetainResult is compared with them; a per-object ledger demands exactly one detach for every object the pool lets go of and none for objects that stay.",
    note="A panicking predicate or detach is outside the quantifier."),
- "C10": dict(level="fault_enumeration", sec="4 C10", tech="runtime monitoring: complete table of directed timeout scenarios on tokio's paused clock compared with a reference outcome table, plus random timing histories",
+ "C10": dict(level="fault_enumeration", sec="4 C10", tech="runtime monitoring: complete table of directed timeout scenarios on tokio's paused clock compared with a reference outcome table, random timing histories, and real-clock timeout scenarios for both runtimes (Tokio1, AsyncStd1)",
    text="The finite table runtime x (wait, create, recycle) in {none, zero, finite}^3 x ordering of 'deadline passes' against 'slot freed' / 'step finishes' is executed completely against the real pool on the virtual clock (2700 managed scenarios, 54 build() cases, 60 unmanaged scenarios); each result is compared with the documented outcome, accepting both where the documentation leaves the case open.",
-   note="Runtime::AsyncStd1 is not driven (no virtual clock)."),
- "C11": dict(level="exploration", sec="4 C11", tech="runtime monitoring: status() sampled after every director action against ground truth (exact at quiescence, range checks otherwise)",
+   note="Runtime::AsyncStd1 has no virtual clock: it is driven by the real-clock scenarios only (rt_real: 'not before the deadline', result kind, pool state afterwards; 'too late' is inconclusive)."),
+ "C11": dict(level="exploration", sec="4 C11", tech="runtime monitoring: status() sampled after every director action against ground truth (exact at quiescence, range checks otherwise), managed and unmanaged pool",
    text="status() is sampled after every action: exact equality with ground truth at quiescent points, plausibility bounds in between.",
    note="Thread-level sampling uses monotone bounds only."),
  "C12": dict(level="exploration", sec="4 C12", tech="runtime monitoring: panic capture + thread-level one-preemption sweep of close() against every unmanaged operation at every schedule point; task-level histories continuing after close",
@@ -51,10 +51,10 @@ CHECKS = {
  "C13": dict(level="exploration", sec="4 C13", tech="runtime monitoring: per-object hand-out counter compared with Metrics at every callback, hand-out and retain",
    text="Long single-pool histories; the harness's own per-object hand-out counter and last reported instants are compared with the Metrics seen by hooks, recycle, retain and Object::metrics().",
    note="Instants are real (std) instants; only ordering is checked."),
- "C14": dict(level="exploration", sec="4 C14", engine="sync", tech="runtime monitoring: thread-identity and sequence stamps recorded by closures and by the wrapped value's destructor on a multi-thread tokio runtime; 'is blocking allowed here' probed with Handle::block_on",
+ "C14": dict(level="exploration", sec="4 C14", engine="sync", tech="runtime monitoring: thread-identity and sequence stamps recorded by closures and by the wrapped value's destructor on a multi-thread tokio runtime, the wrapper's own runtime being Tokio1 or AsyncStd1; 'is blocking allowed here' probed with Handle::block_on; second pass against the crates built with the tracing feature",
    text="Random histories of interact calls (completing, panicking, cancelled before the closure starts, cancelled while it is parked on a gate) followed by dropping the wrapper at a random moment on an async worker thread; constructor, closures and destructor record thread id, a global sequence number and whether tokio allows blocking on that thread; the destructor must run exactly once, off every thread that polls async tasks, after the end stamp of every closure that used the value.",
    note="Runtime shutdown and dropping a wrapper outside a runtime are outside the property's quantifier."),
- "C15": dict(level="exploration", sec="4 C15", engine="sync", tech="runtime monitoring: per-connection identity marker (PRAGMA user_version / serial number) read at every hand-out and compared with the set of poisoned / broken connections; capacity probe",
+ "C15": dict(level="exploration", sec="4 C15", engine="sync", tech="runtime monitoring: per-connection identity marker (PRAGMA user_version / serial number) read at every hand-out and compared with the set of poisoned / broken connections; capacity probe; pools on Tokio1 and AsyncStd1; second pass against the crates built with the tracing feature",
    text="Random histories of gets, interactions (ok / panic / cancelled), 'broken' markings (open transaction, has_broken, is_valid, scripted check function, failing custom query) and returns over real sqlite, r2d2 (scripted ManageConnection) and diesel-sqlite pools; every connection carries an identity marker that is read at every hand-out; at the end the full capacity must be served with healthy connections.",
    note="sqlite is the system libsqlite3 with :memory: databases; mysql/postgres diesel backends are not driven."),
  "C16": dict(level="exploration", sec="4 C16", engine="pg", tech="runtime monitoring: scripted PostgreSQL wire server (in-memory duplex per connection) logging every frontend message; client identity probe at every hand-out; cache/registry model",
